@@ -70,30 +70,25 @@ extern int mpt_notify_change(MPT_STRUCT(notify) *no, MPT_INTERFACE(input) *next,
 	fdnew = -1;
 	next->_vptr->meta.convertable.convert((void *) next, MPT_ENUM(TypeUnixSocket), &fdnew);
 	
-	/* distinct instances */
-	if (next != in) {
-		if (fdnew < 0) {
-			return 0;
-		}
-		/* need separate reference */
-		if (!(next->_vptr->meta.addref((void *) next))) {
-			return MPT_ERROR(BadOperation);
-		}
-	}
-	/* no change in position */
-	else if (fdnew == fdold) {
+	/* same instance without change in position */
+	if (next == in && fdnew == fdold) {
 		return 0;
 	}
-	/* detach reference from old slot */
-	else if (in) {
-		slot[fdold] = 0;
-		if (fdold >= 0) {
-			mpt_notify_clear(no, fdold);
-		}
+	/* new instance without descriptor */
+	if (next != in && fdnew < 0) {
+		return 0;
+	}
+	/* new position needs separate reference */
+	if (!(next->_vptr->meta.addref((void *) next))) {
+		return MPT_ERROR(BadOperation);
+	}
+	/* release registration for old position */
+	if (next == in) {
+		mpt_notify_clear(no, fdold);
 	}
 	/* move reference to notifier */
 	if (mpt_notify_add(no, POLLIN, next) < 0) {
-		in->_vptr->meta.unref((void *) in);
+		next->_vptr->meta.unref((void *) next);
 		return MPT_ERROR(BadOperation);
 	}
 	
